@@ -559,6 +559,9 @@ def replay(rec):
     lo = max(MIN_NS, centre - 400 * DAY_NS)
     hi = min(MAX_NS, centre + 400 * DAY_NS)
     w = zw.walk(z, lo, hi)
+    if w.error:
+        print("walk fails:", w.error[0], zw.fmt_ns(w.error[1]))
+        return True
     idx = zw.Index(w.tuples)
     if "local_ns" in case:
         check_local(acc, zc, z, idx, case["local_ns"], True, _cals())
